@@ -557,7 +557,7 @@ func main() {
 				prm = append(prm, v)
 			}
 		} else if strings.HasPrefix(d.Option, "datum=") {
-			if s, ok := tabs["Datum"][strings.TrimPrefix(d.Option, "datum=")].(map[string]interface{})["towgs84"].(string); ok {
+			if s, ok := tabs["Datum"][strings.SplitN(strings.TrimPrefix(d.Option, "datum="), "+", 2)[0]].(map[string]interface{})["towgs84"].(string); ok {
 				for _, f := range strings.Split(s, ",") {
 					v, _ := strconv.ParseFloat(strings.TrimSpace(f), 64)
 					prm = append(prm, v)
